@@ -9,7 +9,7 @@ from ..index import AnalysisError, clone
 from ..paths import Summarizer
 from ..typeflow import NONE, RAW, UNK, TypeInfer, parse_annotation, show
 from .common import floc, loc
-from .jsonio import (JH, ReaderRecord, WriterRecord, check_typed_fields, check_writer_schema, load_schemas)
+from .jsonio import (JH, ReaderRecord, WriterRecord, check_truthiness, check_typed_fields, check_writer_schema, load_schemas)
 
 FIELD_KEYS = {  # reader field -> JSON keys it must be computed from (frozen writer<->reader table, confirmed by reading)
     'board_id': {'board_id'}, 'hands': {'deal'}, 'dealer': {'dealer'}, 'vul': {'vulnerability'}, 'declarer': {'declarer'},
@@ -236,6 +236,16 @@ def run(chk):
                 rec.qual, f"'vulnerability': {ast.unparse(vv) if vv is not None else None}", 'vulnerability is written with str(Vul)',
                 'vulnerability is not written as str() of the contract/board vulnerability')
 
+    # ---- R5 presence tests --------------------------------------------------------------------------------------------------
+    check_truthiness(chk, 'C12.R5', repo)
+    # a record is serialised completely before anything of it (or its separator) reaches the stream
+    writes = [n for n in ast.walk(wc) if isinstance(n, ast.Call) and ast.unparse(n.func) == 'self._writer.write']
+    if dumps and writes:
+        first = all((d.lineno, d.col_offset) < (x.lineno, x.col_offset) for d in dumps for x in writes)
+        chk.require(first, 'C12.R4', repo.where(repo.cls('JsonWriter').module, writes[0]), q_dumps, 'stream written before json.dumps',
+                    'json.dumps precedes every stream write of _write_content (a record that cannot be serialised leaves no separator behind)',
+                    'the separator / first-line state is written before json.dumps has produced the record: one unserialisable record leaves `,\\n,\\n` '
+                    'in the stream and the whole document no longer parses')
     # ---- R4 envelope + tags --------------------------------------------------------------------------------------
     tag_log = envelope(chk, 'C12.R4', repo, 'JsonLogWriter')
     tag_set = envelope(chk, 'C12.R4', repo, 'JsonBoardSettingWriter')
